@@ -570,20 +570,17 @@ Qed.
 Lemma removelast_snoc : forall (s : str) c, removelast (s ++ [c]) = s.
 Proof. intros. rewrite removelast_app by discriminate. simpl. apply app_nil_r. Qed.
 
-(* pickling: a term the constructor leaves alone comes back as itself *)
-Lemma pickle_fixed : forall o t, wf_term t = true ->
-  (match t with Lit lex dt _ => is_fixed o lex dt lex = true | _ => True end) ->
-  same_as t (unpickle o t) = true.
+(* pickling (after the fix for F7a: __reduce__ passes normalize=False): every well-formed term comes back as itself *)
+Lemma pickle_same : forall o t, wf_term t = true -> same_as t (unpickle o t) = true.
 Proof.
-  intros o t W F. destruct t as [s|s|s|lex dt lang]; simpl in *.
+  intros o t W. destruct t as [s|s|s|lex dt lang]; simpl in *.
   - apply str_eqb_refl.
   - apply str_eqb_refl.
   - apply andb_true_iff in W as [_ W]. destruct s as [|c r]; [discriminate|]. simpl.
     apply negb_true_iff in W. rewrite W. simpl. rewrite N.eqb_refl. apply str_eqb_refl.
-  - apply andb_true_iff in W as [_ W]. unfold mk_literal, is_fixed in *.
+  - apply andb_true_iff in W as [_ W]. unfold mk_literal.
     destruct dt as [d|], lang as [l|]; try discriminate.
-    + destruct (ctor_lex o lex (Some d)) as [l'|]; [|discriminate].
-      simpl. rewrite str_eqb_sym, F. simpl. rewrite str_eqb_refl. reflexivity.
+    + simpl. rewrite !str_eqb_refl. reflexivity.
     + apply andb_true_iff in W as [W1 W2]. destruct l as [|c l]; [discriminate|].
       rewrite W1. simpl. rewrite !str_eqb_refl, N.eqb_refl. reflexivity.
     + simpl. rewrite str_eqb_refl. reflexivity.
@@ -592,15 +589,13 @@ Qed.
 Lemma tkf_fixed : forall c, tkf c = 0 ->
   match t_term c with
   | Lit lex dt _ => is_fixed (t_orc c) lex dt lex = true /\ is_fixed (t_orc c) lex dt (n3_lex lex dt) = true
-                    /\ has_bs_x lex = false /\ has_bs_quote_multiline lex = false
-  | Var _ => False
   | _ => True
   end.
 Proof.
   intros c H. unfold tkf in H. destruct (t_term c) as [s|s|s|lex dt lang]; auto; try discriminate.
   destruct (is_fixed (t_orc c) lex dt lex && is_fixed (t_orc c) lex dt (n3_lex lex dt)) eqn:E; simpl in H; try discriminate.
   apply andb_true_iff in E as [E1 E2].
-  destruct (has_bs_x lex); try discriminate. destruct (has_bs_quote_multiline lex); try discriminate. auto.
+  auto.
 Qed.
 
 Lemma from_n3_iri : forall o s, valid_uri s = true -> latin1 s = true ->
@@ -621,6 +616,22 @@ Proof.
 Qed.
 
 (* from_n3 on the text of a literal whose lexical form needs no escape *)
+Lemma fix_bs_x_absent : forall s, ~ In bs s -> fix_bs_x false s = s.
+Proof.
+  induction s as [|c r IH]; intro H; auto. cbn [fix_bs_x].
+  destruct (N.eqb c bs) eqn:E.
+  - apply N.eqb_eq in E. subst. exfalso. apply H. simpl. auto.
+  - rewrite andb_false_r. f_equal. apply IH. intro. apply H. simpl. auto.
+Qed.
+
+Lemma unesc_quote_absent : forall s, ~ In bs s -> unesc_quote 0 s = s.
+Proof.
+  induction s as [|c r IH]; intro H; auto. cbn [unesc_quote].
+  destruct (N.eqb c bs) eqn:E.
+  - apply N.eqb_eq in E. subst. exfalso. apply H. simpl. auto.
+  - cbn [Nat.odd]. rewrite andb_false_r. cbn [repeat app]. f_equal. apply IH. intro. apply H. simpl. auto.
+Qed.
+
 Lemma from_n3_plain_head : forall o lex suffix,
   forallb plain_char lex = true -> ~ In 34 suffix ->
   from_n3 o (34 :: lex ++ 34 :: suffix) =
@@ -629,9 +640,9 @@ Lemma from_n3_plain_head : forall o lex suffix,
         match dt_from_n3 d with
         | None => WAny
         | Some None => WRaise
-        | Some (Some u) => mk_literal o lex None (Some u)
+        | Some (Some u) => mk_literal o true lex None (Some u)
         end
-    | None => mk_literal o lex (match suffix with 64 :: l => Some l | _ => None end) None
+    | None => mk_literal o true lex (match suffix with 64 :: l => Some l | _ => None end) None
     end.
 Proof.
   intros o lex suffix P S.
@@ -641,7 +652,7 @@ Proof.
   change (34 :: lex ++ 34 :: suffix) with ((34 :: lex) ++ 34 :: suffix).
   unfold q1. rewrite (rsplit1_last1 34 (34 :: lex) suffix S).
   cbn [length skipn]. unfold bs.
-  rewrite (replace_absent 92 [34] [34] lex B), (replace_absent 92 [120] [92; 92; 120] lex B).
+  rewrite (unesc_quote_absent lex B), (fix_bs_x_absent lex B).
   rewrite (codec_plain lex (plain_latin1 lex P) B).
   destruct (after_last [94; 94] suffix) as [d|]; auto.
 Qed.
@@ -653,12 +664,15 @@ Proof.
   intros c W K P. pose proof (tkf_fixed c K) as F.
   unfold tspec_ok, tmodel_obs. cbn [t_n3 t_from t_pickle t_flags]. rewrite K. cbn [N.eqb forallb andb].
   rewrite andb_true_r. apply andb_true_iff. split.
-  - apply pickle_fixed; auto. destruct (t_term c); auto. tauto.
-  - destruct (t_term c) as [s|s|s|lex dt lang]; try contradiction.
+  - apply pickle_same; auto.
+  - destruct (t_term c) as [s|s|s|lex dt lang].
     + cbn [n3]. destruct (valid_uri s) eqn:V; [|reflexivity].
       cbn [app]. cbn [text_proved] in P. rewrite (from_n3_iri _ s V P). simpl. apply str_eqb_refl.
     + simpl. apply str_eqb_refl.
-    + destruct F as [F1 [F2 _]]. cbn [text_proved] in P. apply andb_true_iff in P as [P D].
+    + cbn [wf_term] in W. apply andb_true_iff in W as [_ W]. destruct s as [|x r]; [discriminate|].
+      apply negb_true_iff in W. cbn [n3 from_n3 mk_var]. rewrite N.eqb_refl. cbn [mk_var]. rewrite W.
+      simpl. rewrite N.eqb_refl. apply str_eqb_refl.
+    + destruct F as [F1 F2]. cbn [text_proved] in P. apply andb_true_iff in P as [P D].
       cbn [wf_term] in W. apply andb_true_iff in W as [_ W].
       assert (n3_quoted lex dt = 34 :: lex ++ [34]) as NQ.
       { unfold n3_quoted. rewrite (quote_encode_plain lex P). destruct dt as [d|]; auto.
@@ -747,23 +761,27 @@ Qed.
 (* ------------------------------------------------------------------ *)
 (* the known findings, on the model *)
 
-Lemma pickle_refuted : exists t, wf_term t = true /\ same_as t (unpickle [] t) = false.
+(* the text read-back of a literal the constructor does not leave alone (F7a): from_n3 normalises *)
+Lemma from_n3_nonnormal_refuted : exists t, wf_term t = true /\ tkf {| t_term := t; t_orc := [] |} = 1 /\
+  same_as t (match n3 t with Some s => from_n3 [] s | None => WRaise end) = false
+  /\ same_as t (unpickle [] t) = true.
 Proof. exists (Lit [48; 49] (Some xsd_integer) None). vm_compute. auto. Qed.
 
 Definition from_n3_n3 (o : ctor_oracle) (t : term) : wres :=
   match n3 t with Some s => from_n3 o s | None => WRaise end.
 
-Lemma from_n3_bs_x_refuted : exists t, wf_term t = true /\ tkf {| t_term := t; t_orc := [] |} = 2 /\
-  from_n3_n3 [] t = WTerm (Lit [92; 65] None None) /\ same_as t (from_n3_n3 [] t) = false.
-Proof. exists (Lit [92; 120; 52; 49] None None). vm_compute. auto. Qed.
+(* the former findings F7b and F7d are gone: backslash-x and variables round-trip *)
+Lemma from_n3_fixed_examples :
+  from_n3_n3 [] (Lit [92; 120; 52; 49] None None) = WTerm (Lit [92; 120; 52; 49] None None)
+  /\ from_n3_n3 [] (Lit [92; 92; 120] None None) = WTerm (Lit [92; 92; 120] None None)
+  /\ from_n3_n3 [] (Var [120]) = WTerm (Var [120]).
+Proof. vm_compute. auto. Qed.
 
-Lemma from_n3_var_refuted : exists t, wf_term t = true /\
-  from_n3_n3 [] t = WTerm (BNd [63; 120]) /\ same_as t (from_n3_n3 [] t) = false.
-Proof. exists (Var [120]). vm_compute. auto. Qed.
-
-Lemma from_n3_bs_quote_refuted : exists t, wf_term t = true /\ tkf {| t_term := t; t_orc := [] |} = 5 /\
-  from_n3_n3 [] t = WTerm (Lit [10; 34] None None) /\ same_as t (from_n3_n3 [] t) = false.
-Proof. exists (Lit [10; 92; 34] None None). vm_compute. auto. Qed.
+Lemma from_n3_bs_quote_fixed :
+  from_n3_n3 [] (Lit [10; 92; 34] None None) = WTerm (Lit [10; 92; 34] None None)
+  /\ from_n3_n3 [] (Lit [92; 34; 10] None None) = WTerm (Lit [92; 34; 10] None None)
+  /\ from_n3_n3 [] (Lit [10; 34; 34; 34; 34] None None) = WTerm (Lit [10; 34; 34; 34; 34] None None).
+Proof. vm_compute. auto. Qed.
 
 (* ------------------------------------------------------------------ *)
 (* what the boolean checkers say *)
